@@ -95,6 +95,9 @@ func (c07) Plan(tier string, seed int64) []core.Scenario {
 	for i := range out {
 		out[i].Seed = seed*32452843 + int64(i)
 	}
+	// single-stall pair enumeration on a healthy connection (streams judged here, calls in C02); the quick
+	// sample differs from C02's
+	out = append(out, planStallPairs(tier, seed+1000003, "streams")...)
 	return out
 }
 
@@ -115,6 +118,8 @@ func (p c07) Run(sc core.Scenario) core.Result {
 		p.mixedSizes(sc, r)
 	case "sub-behind-big":
 		p.subBehindBig(sc, r)
+	case "stallpair":
+		runStallPair(sc, r)
 	}
 	return r.Result()
 }
